@@ -206,7 +206,7 @@ def run(ctx):
             ctx.violation(desc, "trace %s, step %d: %s" % (t["name"], l, json.dumps(t["ev"][l - 1] if l else {})[:500]),
                           case={"kind": "word", "name": t["name"], "word": t["word"]} if t["kind"] == "word"
                           else {"kind": "iers", "values": t["values"], "ev": t["ev"]})
-        ctx.extra["binding_selftest"] = selftest(traces, dumpfile)
+        ctx.selftest(selftest, traces, dumpfile)
     finally:
         shutil.rmtree(d, ignore_errors=True)
     ctx.exhaustive = True
